@@ -160,4 +160,14 @@ theorem mergeFold_alias_first {S : Type} (iadd : S → S → Except ErrKind S)
       have := mergeFold_alias_later iadd rest 1 none [] r takes (Nat.succ_pos _) h ha
       cases this
 
+/-- a comprehension whose values cannot fail is a `map` -/
+theorem entries_pure {K V : Type} (f : K → V) (ms : List K) :
+    samplewiseResultEntries (m := Except ErrKind) (fun k => pure (f k)) ms = .ok (ms.map fun k => (k, f k)) := by
+  induction ms with
+  | nil => rfl
+  | cons k ks ih =>
+    unfold samplewiseResultEntries at ih ⊢
+    rw [List.mapM_cons, ih]
+    rfl
+
 end MlModel.GenWiring
